@@ -1501,7 +1501,7 @@ fn run_body(c: &RtCase, lines: &mut Vec<String>, flags: &mut RtFlags) {
             run_call_events(id, "", gref, cfg, evs, lines, flags);
         }
         Body::S(cfg, evs) => run_stream_events(id, "", &g, cfg, evs, lines, flags),
-        Body::H(runs) if c.family.starts_with("tokio-share") => {
+        Body::H(runs) if c.family.starts_with("share") => {
             // every run is a call with the same strategy; ONE InterruptibilityState is shared by all
             // of them through `reborrow()` (monitors only, no fresh-graph oracle)
             let strat = runs
